@@ -388,9 +388,10 @@ DurExpected(ret, a) ==
                                    THEN (IF SeqSign(PDurSeq(a.partial)) = 2 THEN ErrRange ELSE Ok(DurOfSeq(PDurSeq(a.partial)))) ELSE Same
     [] ret = "pdur_is_empty" -> IF Plain(a.partial) THEN Ok(PDurEmpty(a.partial)) ELSE Same
     [] ret = "dur_time" -> Ok([h |-> a.recv.h, mi |-> a.recv.mi, s |-> a.recv.s, ms |-> a.recv.ms, us |-> a.recv.us, ns |-> a.recv.ns])
-    [] ret = "dur_sign" -> Ok(DurSign(a.recv))
+    \* (a mixed-sign receiver - from_day_and_time's unchecked value, C09's recorded finding - has no sign: whatever the core says)
+    [] ret = "dur_sign" -> IF DurSign(a.recv) = 2 THEN Same ELSE Ok(DurSign(a.recv))
     [] ret = "dur_is_zero" -> Ok(DurSign(a.recv) = 0)
-    [] ret = "dur_abs" -> Ok(AbsDur(a.recv))
+    [] ret = "dur_abs" -> IF DurSign(a.recv) = 2 THEN Same ELSE Ok(AbsDur(a.recv))
     [] ret = "dur_negated" -> Ok(NegDur(a.recv))
     [] ret = "mk_tdur" -> IF Plain(a) THEN (IF SeqSign(a.f) = 2 THEN ErrRange ELSE Ok(TDurOfSeq(a.f))) ELSE Same
     [] ret = "seq_sign" -> IF SeqSign(a.recv) # 2 THEN Ok(SeqSign(a.recv)) ELSE Same
